@@ -26,6 +26,9 @@ def body(led):
     py_stiffeners.check_bladestiff1d(led)
     py_stiffeners.check_bladestiff2d(led)
     py_stiffeners.check_tstiff2d_kG0_kM(led)
+    if getattr(led, 'tier', 'quick') == 'thorough':
+        from . import binary_xcheck
+        binary_xcheck.check_stiffener_kernels(led)
 
 
 def main():
